@@ -649,6 +649,47 @@ func init() {
 		return Iface{T: types.NewPointer(vt), V: p}
 	}
 
+	// cancellable contexts: a flag object whose Done channel is closed by cancel()
+	type ctxState struct {
+		ch  *Chan
+		err Value
+	}
+	intrinsics["context.WithCancel"] = func(e *Engine, fr *frame, fn *ssa.Function, args []Value) Value {
+		pkg := e.P.ByPath["context"]
+		ct := pkg.Type("cancelCtx").Type()
+		p := new(Value)
+		z := e.zero(ct).(Struct)
+		z[0] = args[0] // embedded parent Context
+		*p = z
+		st := &ctxState{ch: &Chan{}, err: Iface{}}
+		e.side[p] = st
+		cancel := &NativeFn{Name: "context.CancelFunc", F: func(e *Engine, _ []Value) Value {
+			e.yield("context cancel")
+			if !st.ch.Closed {
+				st.ch.Closed = true
+				st.err = e.globalErr("context", "Canceled")
+				e.chanClosed(st.ch)
+			}
+			return nil
+		}}
+		return Tuple{Iface{T: types.NewPointer(ct), V: p}, cancel}
+	}
+	intrinsics["(*context.cancelCtx).Done"] = func(e *Engine, fr *frame, fn *ssa.Function, args []Value) Value {
+		st, ok := e.side[args[0].(*Value)].(*ctxState)
+		if !ok {
+			panic(unsupported("cancelCtx not created by context.WithCancel"))
+		}
+		e.yield("ctx.Done")
+		return st.ch
+	}
+	intrinsics["(*context.cancelCtx).Err"] = func(e *Engine, fr *frame, fn *ssa.Function, args []Value) Value {
+		st, ok := e.side[args[0].(*Value)].(*ctxState)
+		if !ok {
+			panic(unsupported("cancelCtx not created by context.WithCancel"))
+		}
+		return st.err
+	}
+
 	// ------------------------------------------------------------ runtime / os
 	pkgIntrinsics["runtime"] = noop
 	pkgIntrinsics["runtime/debug"] = noop
@@ -962,4 +1003,17 @@ func (e *Engine) sprintfSimple(f string, args []Value) (Str, bool) {
 	}
 	flush()
 	return out, true
+}
+
+// globalErr returns the (lazily materialised) value of a package-level error variable.
+func (e *Engine) globalErr(pkg, name string) Value {
+	sp := e.P.ByPath[pkg]
+	if sp == nil {
+		return e.newErrorIface("<" + pkg + "." + name + ">")
+	}
+	g, ok := sp.Members[name].(*ssa.Global)
+	if !ok {
+		return e.newErrorIface("<" + pkg + "." + name + ">")
+	}
+	return *e.globalAddr(g)
 }
